@@ -43,9 +43,13 @@ impl Src for KaniSrc {
 
 pub struct Report {
    pub failed: Vec<&'static str>,
+   /// decoded input values (native replay only)
+   pub notes: Vec<String>,
 }
 impl Report {
-   pub fn new() -> Self { Report { failed: vec![] } }
+   pub fn new() -> Self { Report { failed: vec![], notes: vec![] } }
+   #[cfg(not(kani))]
+   pub fn note(&mut self, s: String) { if self.notes.len() < 8 { self.notes.push(s); } }
    pub fn check(&mut self, name: &'static str, ok: bool) {
       if !ok && !self.failed.contains(&name) {
          self.failed.push(name);
@@ -68,6 +72,9 @@ macro_rules! chk {
 
 /// input: a length byte (<= N) followed by N element bytes; the aggregator sees the first `len` elements
 fn input<const N: usize>(s: &mut dyn Src) -> ([u8; N], usize) {
+   input_inner::<N>(s)
+}
+fn input_inner<const N: usize>(s: &mut dyn Src) -> ([u8; N], usize) {
    let len = s.byte();
    s.require((len as usize) <= N);
    let mut v = [0u8; N];
@@ -230,6 +237,8 @@ fn p_from(s: &mut dyn Src) -> f64 {
 pub fn percentile_contract<const N: usize>(s: &mut dyn Src, r: &mut Report) {
    let (v, len) = input::<N>(s);
    let p = p_from(s);
+   #[cfg(not(kani))]
+   r.note(format!("input = {:?}, p = {}", &v[..len], p));
    let xs = &v[..len];
    let f = percentile::<u8, _>(p);
    let (m, more) = one(f(xs.iter().map(|x| (x,))));
